@@ -45,6 +45,12 @@ func linkedIPHandler(
 
 		// Make sure that all requests are marked with our user agent.
 		r.Out.Header.Set(httphdr.UserAgent, agdhttp.UserAgent())
+
+		// Make sure that the headers set by the proxy handler reach the backend
+		// even if the client has listed them in its Connection header, since
+		// those are removed from the outgoing request as hop-by-hop ones.
+		r.Out.Header[httphdr.XConnectingIP] = r.In.Header[httphdr.XConnectingIP]
+		r.Out.Header[httphdr.XRequestID] = r.In.Header[httphdr.XRequestID]
 	}
 
 	// Use largely the same transport as http.DefaultTransport, but with a
